@@ -549,6 +549,10 @@ def read_command(buf, n_required_args=-1, n_optional_args=-1, skip=0,
     for _ in range(skip):
         next(buf)
 
+    if not buf.hasNext():
+        # a lone backslash at the very end of the input: a command without
+        # a name and without arguments
+        return Token('', buf.position), TexArgs()
     name = next(buf)
     # if the command is a special one (like `newcommand`), enter "special"
     # mode, in which a single `\begin` or `\end` are allowed
